@@ -60,7 +60,9 @@ type Case struct {
 
 var fsPool = []string{" ", ",", "|", ".", "*", "[", "\t", "é", ":", ", *", "[,;]+", "ab", "a|b", "x*", "[ ]", "\\|", ":+", "(,|;)", "a|ab"}
 var ofsPool = []string{" ", "-", "", ",", "::", "\t", "é", "\n"}
-var recPieces = []string{"a", "b", "ab", "x", "12", "3.5", " ", "  ", "\t", ",", ",,", ";", ":", "|", ".", "*", "[", "é", "日本", "aab", "\"", "q\"q"}
+var recPieces = []string{"a", "b", "ab", "x", "12", "3.5", " ", "  ", "\t", ",", ",,", ";", ":", "|", ".", "*", "[", "é", "日本", "aab", "\"", "q\"q",
+	// white space that is NOT a blank: field content under the default FS
+	"\v", "\f", "\r", "\u00a0", "\u2003", "\u0085", "\x00", "\xa0"}
 
 func genRecord(t *rapid.T) string {
 	n := rapid.IntRange(0, 7).Draw(t, "nrec")
@@ -190,7 +192,7 @@ func (m *model) numStr(n float64) string {
 }
 
 func numPrefix(s string) float64 {
-	s = strings.TrimLeft(s, " \t\n")
+	s = strings.TrimLeft(s, " \t\n\v\f\r") // strtod skips all isspace characters
 	re := regexp.MustCompile(`^[+-]?([0-9]+\.?[0-9]*|\.[0-9]+)([eE][+-]?[0-9]+)?`)
 	m := re.FindString(s)
 	if m == "" {
@@ -484,7 +486,7 @@ func run(x *h.Ctx, c Case) string {
 	file := filepath.Join(dir, "side")
 	var fb strings.Builder
 	for _, l := range c.File {
-		fb.WriteString(strings.ReplaceAll(string(l), "\n", " ") + "\n")
+		fb.WriteString(lineOf(l) + "\n")
 	}
 	os.WriteFile(file, []byte(fb.String()), 0o644)
 
@@ -496,16 +498,19 @@ func run(x *h.Ctx, c Case) string {
 		m.fs = string(c.FS)
 	}
 	src.WriteString("NR == 1 {\n  " + probe + "\n")
-	rec := strings.ReplaceAll(string(c.Record), "\n", " ")
+	// input lines: one record each; the line reader drops one CR before the newline (C07's business),
+	// so a line must not end in CR here
+	asLine := lineOf
+	rec := asLine(c.Record)
 	var input strings.Builder
 	input.WriteString(rec + "\n")
 	for _, l := range c.More {
-		s := strings.ReplaceAll(string(l), "\n", " ")
+		s := asLine(l)
 		m.input = append(m.input, s)
 		input.WriteString(s + "\n")
 	}
 	for _, l := range c.File {
-		m.file = append(m.file, strings.ReplaceAll(string(l), "\n", " "))
+		m.file = append(m.file, asLine(l))
 	}
 	ops := c.Ops
 	for i, op := range ops {
@@ -668,4 +673,14 @@ func eqStrings(a, b []string) bool {
 
 func init() {
 	h.Prop("record_history_vs_model", 30000, 500000, genCase, run)
+}
+
+// lineOf makes one input line of a drawn record text: no inner newline, and no CR at its end
+// (the line reader drops one CR before the newline, which is C07's business).
+func lineOf(v h.Str) string {
+	s := strings.ReplaceAll(string(v), "\n", " ")
+	for strings.HasSuffix(s, "\r") {
+		s = s[:len(s)-1] + "^"
+	}
+	return s
 }
